@@ -1,17 +1,370 @@
 package main
 
+import (
+	"encoding/json"
+	"flag"
+	"fmt"
+	"os"
+	"path/filepath"
+	"runtime"
+	"sort"
+	"strconv"
+	"strings"
+	"time"
+
+	"verif/engine/sym"
+)
+
 type harnessRef struct {
 	Pkg string // key of pkgs
 	Fn  string
-	// limits per tier (0 = none)
+	// optional limits per tier (0 = none): seconds of exploration
 	QuickSecs, ThoroughSecs int
+	// ThoroughOnly harnesses are skipped in the quick tier
+	ThoroughOnly bool
 }
 
 type checkDef struct {
 	ID        string
 	Harnesses []harnessRef
+	Bounds    string // human-readable statement of the bounds and what lies outside
 }
 
-var checks = []checkDef{}
+type knownFinding struct {
+	Property    string `json:"property"`
+	Harness     string `json:"harness"`
+	MsgContains string `json:"msg_contains"`
+	What        string `json:"what"`
+}
 
-func cmdCheck(args []string) int { return 2 }
+type knownFile struct {
+	Findings []knownFinding `json:"findings"`
+	Fixed    []string       `json:"fixed"`
+}
+
+func loadKnown() knownFile {
+	var k knownFile
+	b, err := os.ReadFile(filepath.Join(verifDir, "known_findings.json"))
+	if err == nil {
+		_ = json.Unmarshal(b, &k)
+	}
+	return k
+}
+
+type harnessEvidence struct {
+	Harness      string         `json:"harness"`
+	Paths        int            `json:"paths"`
+	PathEnds     map[string]int `json:"path_ends"`
+	SolverSat    int            `json:"solver_sat"`
+	SolverUnsat  int            `json:"solver_unsat"`
+	SolverUnk    int            `json:"solver_unknown"`
+	SolverErrors int            `json:"solver_errors"`
+	SolverS      float64        `json:"solver_seconds"`
+	Portfolio    int            `json:"portfolio_runs"`
+	Steps        int64          `json:"ssa_instructions_executed"`
+	WallS        float64        `json:"wall_s"`
+	Complete     bool           `json:"complete_within_bounds"`
+	Pending      int            `json:"pending_work_items"`
+	Reach        map[string]int `json:"reachability_witnesses"`
+	Inconclusive map[string]int `json:"inconclusive,omitempty"`
+	Unsupported  map[string]int `json:"unsupported,omitempty"`
+	Unwind       map[string]int `json:"unwinding_failures,omitempty"`
+	Violations   int            `json:"violations"`
+	Confirmed    int            `json:"violations_confirmed_by_replay"`
+	Spurious     int            `json:"spurious"`
+	DiffRuns     int            `json:"passing_paths_replayed_natively"`
+	DiffAgree    int            `json:"passing_paths_agreeing"`
+}
+
+func cmdCheck(args []string) int {
+	if len(args) < 1 {
+		usage()
+	}
+	id := args[0]
+	fs := flag.NewFlagSet("check", flag.ExitOnError)
+	tierS := fs.String("tier", envOr("VERIF_TIER", "quick"), "quick|thorough")
+	workers := fs.Int("workers", runtime.NumCPU(), "workers")
+	fs.Parse(args[1:])
+	tier := 0
+	if *tierS == "thorough" {
+		tier = 1
+	}
+	seed, _ := strconv.Atoi(envOr("VERIF_SEED", "0"))
+	var def *checkDef
+	for i := range checks {
+		if checks[i].ID == id {
+			def = &checks[i]
+		}
+	}
+	if def == nil {
+		fmt.Fprintf(os.Stderr, "unknown check %s\n", id)
+		return 2
+	}
+	t0 := time.Now()
+	scratch, _ := os.MkdirTemp("", "vf")
+	defer os.RemoveAll(scratch)
+	var which []string
+	seen := map[string]bool{}
+	for _, h := range def.Harnesses {
+		if !seen[h.Pkg] {
+			which = append(which, h.Pkg)
+			seen[h.Pkg] = true
+		}
+	}
+	known := loadKnown()
+	evPath := filepath.Join(verifDir, "evidence", id+".json")
+	os.MkdirAll(filepath.Dir(evPath), 0755)
+	replayDir := filepath.Join(verifDir, "replays", id)
+
+	ev := map[string]interface{}{}
+	writeEvidence := func(cov map[string]interface{}, assumptions []string, violations int) {
+		ev = map[string]interface{}{
+			"property_id": id,
+			"tier":        *tierS,
+			"seed":        seed,
+			"level":       "model_checking",
+			"coverage":    cov,
+			"assumptions": assumptions,
+			"wall_s":      time.Since(t0).Seconds(),
+			"violations":  violations,
+		}
+		b, _ := json.MarshalIndent(ev, "", " ")
+		os.WriteFile(evPath, b, 0644)
+	}
+
+	p, ov, err := loadProgram(scratch, which)
+	if err != nil {
+		// The harness does not load against the current tree (e.g. a refactor removed what a
+		// shim touches): the check cannot decide anything.
+		fmt.Printf("INCONCLUSIVE property=%s reason=harness does not load against the current tree: %s\n", id, truncate(err.Error(), 2000))
+		writeEvidence(map[string]interface{}{
+			"states": 1, "transitions": 1, "traces_validated_against_impl": 0,
+			"samples":     []string{"load failure: " + truncate(err.Error(), 500)},
+			"explanation": "harness overlay did not type-check against the current tree; nothing was decided",
+			"exhaustive":  false,
+		}, nil, 0)
+		return 0
+	}
+
+	cfg := sym.DefaultConfig()
+	cfg.Tier = tier
+	var hevs []harnessEvidence
+	totalPaths, totalQueries, totalReplays := 0, 0, 0
+	var samples []interface{}
+	funcs := map[string]int{}
+	assumptions := map[string]bool{}
+	exit := 0
+	nViol := 0
+	allComplete := true
+	var inconclusive []string
+
+	for _, h := range def.Harnesses {
+		if h.ThoroughOnly && tier == 0 {
+			continue
+		}
+		pi := pkgs[h.Pkg]
+		f := p.Func(importPath(p, pi), h.Fn)
+		if f == nil {
+			fmt.Printf("INCONCLUSIVE property=%s reason=harness %s not found\n", id, h.Fn)
+			allComplete = false
+			continue
+		}
+		lim := sym.Limits{MaxWitnesses: 2 + 3*tier}
+		secs := h.QuickSecs
+		if tier == 1 {
+			secs = h.ThoroughSecs
+		}
+		if secs > 0 {
+			lim.Deadline = time.Now().Add(time.Duration(secs) * time.Second)
+		}
+		rep, err := sym.Explore(p, f, *workers, cfg, lim)
+		if err != nil {
+			fmt.Printf("INCONCLUSIVE property=%s reason=engine error in %s: %v\n", id, h.Fn, err)
+			allComplete = false
+			continue
+		}
+		fmt.Println("  " + rep.Summary())
+		he := harnessEvidence{Harness: h.Fn, Paths: rep.Paths, PathEnds: rep.ByKind, SolverSat: rep.Solver.Sat, SolverUnsat: rep.Solver.Unsat,
+			SolverUnk: rep.Solver.Unknown, SolverErrors: rep.Solver.Errors, SolverS: rep.Solver.SolveS, Portfolio: rep.Solver.PortfolioRuns,
+			Steps: rep.Steps, WallS: rep.WallS, Complete: rep.Complete(), Pending: rep.Pending, Reach: rep.Reached,
+			Inconclusive: rep.Inconcl, Unsupported: rep.UnsupportedMsgs, Unwind: rep.UnwindMsgs, Violations: len(rep.Violations)}
+		totalPaths += rep.Paths
+		totalQueries += rep.Solver.Sat + rep.Solver.Unsat
+		for fn, n := range rep.Funcs {
+			funcs[fn] += n
+		}
+		for n := range rep.Notes {
+			assumptions[n] = true
+		}
+		for _, s := range rep.Samples {
+			if len(samples) < 12 {
+				samples = append(samples, map[string]string{"harness": h.Fn, "path": s})
+			}
+		}
+		if !rep.Complete() {
+			allComplete = false
+			why := []string{}
+			if rep.Truncated {
+				why = append(why, fmt.Sprintf("%d work items left when the limit was reached", rep.Pending))
+			}
+			for k, n := range rep.UnsupportedMsgs {
+				why = append(why, fmt.Sprintf("UNSUPPORTED x%d: %s", n, k))
+			}
+			for k, n := range rep.UnwindMsgs {
+				why = append(why, fmt.Sprintf("%s x%d", k, n))
+			}
+			for k, n := range rep.Inconcl {
+				why = append(why, fmt.Sprintf("undecided x%d: %s", n, k))
+			}
+			if rep.Solver.Errors > 0 {
+				why = append(why, fmt.Sprintf("%d solver errors", rep.Solver.Errors))
+			}
+			sort.Strings(why)
+			msg := fmt.Sprintf("INCONCLUSIVE property=%s harness=%s reason=%s", id, h.Fn, truncate(strings.Join(why, "; "), 1500))
+			fmt.Println(msg)
+			inconclusive = append(inconclusive, msg)
+		}
+		// reachability witnesses: a harness none of whose paths reaches "end" proves nothing
+		if rep.Paths > 0 && rep.Reached["end"] == 0 && len(rep.Violations) == 0 {
+			msg := fmt.Sprintf("INCONCLUSIVE property=%s harness=%s reason=vacuous: no path reached the end label", id, h.Fn)
+			fmt.Println(msg)
+			inconclusive = append(inconclusive, msg)
+			allComplete = false
+		}
+
+		// violations: replay against the real build, dedupe by message
+		seenMsg := map[string]int{}
+		for _, v := range rep.Violations {
+			if seenMsg[v.Kind+v.Msg] >= 2 {
+				continue
+			}
+			seenMsg[v.Kind+v.Msg]++
+			out := replayNative(scratch, ov, pi, v, tier, nViol)
+			totalReplays += out.Runs
+			switch out.Verdict {
+			case "reproduced":
+				he.Confirmed++
+				if kf := matchKnown(known, id, v); kf != nil {
+					fmt.Printf("KNOWN-FINDING: property=%s %s\n", id, kf.What)
+					continue
+				}
+				nViol++
+				os.MkdirAll(replayDir, 0755)
+				dst := filepath.Join(replayDir, fmt.Sprintf("%s_%d.json", v.Harness, nViol))
+				copyFile(out.CexPath, dst)
+				fmt.Printf("VIOLATION property=%s replay=%s\n", id, dst)
+				fmt.Printf("  %s: %s\n  native: %s\n", v.Kind, v.Msg, firstLine(out.Detail))
+				exit = 1
+				if len(samples) < 16 {
+					samples = append(samples, map[string]interface{}{"harness": h.Fn, "violation": v.Msg, "inputs": v.Nondet})
+				}
+			case "passed", "diverged":
+				he.Spurious++
+				fmt.Printf("SPURIOUS property=%s harness=%s solver counterexample did not reproduce natively (%s): %s — %s\n", id, h.Fn, out.Verdict, v.Msg, firstLine(out.Detail))
+				inconclusive = append(inconclusive, "spurious counterexample in "+h.Fn+": "+v.Msg)
+				allComplete = false
+			default:
+				fmt.Printf("INCONCLUSIVE property=%s harness=%s reason=replay failed to run: %s\n", id, h.Fn, truncate(out.Output, 800))
+				inconclusive = append(inconclusive, "replay error in "+h.Fn)
+				allComplete = false
+			}
+		}
+		// differential runs: passing paths must also pass natively
+		for i, w := range rep.Witnesses {
+			out := replayCexOnce(scratch, ov, pi, w, tier, 1000+i)
+			totalReplays++
+			he.DiffRuns++
+			switch out.Verdict {
+			case "passed":
+				he.DiffAgree++
+			case "reproduced":
+				// the real code violates the harness assertion on inputs the engine let pass:
+				// a real failing run (and an engine/model disagreement)
+				nViol++
+				os.MkdirAll(replayDir, 0755)
+				dst := filepath.Join(replayDir, fmt.Sprintf("%s_native_%d.json", w.Harness, nViol))
+				copyFile(out.CexPath, dst)
+				if kf := matchKnownMsg(known, id, w.Harness, out.Detail); kf != nil {
+					fmt.Printf("KNOWN-FINDING: property=%s %s\n", id, kf.What)
+					nViol--
+					continue
+				}
+				fmt.Printf("VIOLATION property=%s replay=%s\n", id, dst)
+				fmt.Printf("  native run of a symbolically passing path failed: %s\n", firstLine(out.Detail))
+				exit = 1
+			default:
+				fmt.Printf("NOTE property=%s harness=%s differential run %s: %s\n", id, h.Fn, out.Verdict, firstLine(out.Detail))
+			}
+		}
+		hevs = append(hevs, he)
+	}
+
+	var fnames []string
+	for fn := range funcs {
+		if strings.Contains(fn, "updog") && !strings.Contains(fn, "verif") && !strings.Contains(fn, "Harness") {
+			fnames = append(fnames, fn)
+		}
+	}
+	sort.Strings(fnames)
+	var as []string
+	for a := range assumptions {
+		as = append(as, a)
+	}
+	sort.Strings(as)
+	as = append(as, "trusted: dependency models (roaring w64, bbolt transactional model, gob identity blob, ghost file system), go/ssa lowering, the engine, z3")
+	if len(samples) == 0 {
+		samples = append(samples, "no path completed")
+	}
+	cov := map[string]interface{}{
+		"states":                        max(totalPaths, 1),
+		"transitions":                   max(totalQueries, 1),
+		"traces_validated_against_impl": totalReplays,
+		"samples":                       samples,
+		"exhaustive":                    allComplete,
+		"explanation":                   "states = complete control-flow paths of the harness(es) through the real code, each covering all data values that follow it; transitions = solver queries decided (sat+unsat) for branch feasibility and assertions; traces_validated = native replays (counterexamples and sampled passing paths) against the real build",
+		"bounds":                        def.Bounds,
+		"functions_encoded":             fnames,
+		"harnesses":                     hevs,
+		"inconclusive":                  inconclusive,
+		"solver":                        "z3 4.8.12 (persistent, push/pop); portfolio cvc5 --solve-bv-as-int=sum / z3 5.1 for undecided obligations",
+	}
+	writeEvidence(cov, as, nViol)
+	fmt.Printf("check %s tier=%s: paths=%d queries=%d replays=%d violations=%d complete=%v wall=%.1fs\n", id, *tierS, totalPaths, totalQueries, totalReplays, nViol, allComplete, time.Since(t0).Seconds())
+	return exit
+}
+
+func firstLine(s string) string {
+	if i := strings.IndexByte(s, '\n'); i >= 0 {
+		return s[:i]
+	}
+	return s
+}
+
+func matchKnown(k knownFile, id string, v *sym.Violation) *knownFinding {
+	return matchKnownMsg(k, id, v.Harness, v.Msg)
+}
+
+func matchKnownMsg(k knownFile, id, harness, msg string) *knownFinding {
+	for i := range k.Findings {
+		f := &k.Findings[i]
+		if f.Property == id && (f.Harness == "" || f.Harness == harness) && strings.Contains(msg, f.MsgContains) {
+			return f
+		}
+	}
+	return nil
+}
+
+func copyFile(src, dst string) {
+	b, err := os.ReadFile(src)
+	if err == nil {
+		os.WriteFile(dst, b, 0644)
+	}
+}
+
+func replayCexOnce(scratch string, ov map[string]string, pi pkgInfo, v *sym.Violation, tier int, idx int) replayOutcome {
+	cex := filepath.Join(scratch, fmt.Sprintf("wit_%s_%d.json", v.Harness, idx))
+	if err := writeCex(cex, pi, v, tier); err != nil {
+		return replayOutcome{Verdict: "error", Output: err.Error()}
+	}
+	return replayCexFile(scratch, ov, pi, cex)
+}
